@@ -1,16 +1,24 @@
 """C05 obligations: keyword case (CH-lex); whitespace / line layout (CH-pre) are added below."""
 from props._lexobs import CTX, lex_obs, mask_obs
+from props._preobs import FN_PRE, PRE_ASSUME
+from vf.ch import Ob
 
-ASSUMPTIONS = ["pre->lex contract: the statement reaches the lexer as blank-separated words (C05.space obligations)",
+ASSUMPTIONS = [*PRE_ASSUME,
+               "pre->lex contract: the statement reaches the lexer as blank-separated words (C05.space obligations)",
                "PLY dispatches a word to t_COLLATE / t_AUTOINCREMENT / t_ID by its master regex; the dispatch is taken from the real compiled regex on the upper-case spelling",
                "contexts: the 28 prefixes of harness/lex.py CONTEXTS; what follows the word is outside the lexer lemma (replayed through the public API)"]
 OUTSIDE = ["ARRAY outside a column definition (no supported statement contains it there)",
            "case masks other than the stated styles in the quick tier; words longer than 6 letters in the full-mask obligations",
-           "line breaks inside quoted literals"]
+           "line breaks inside quoted literals", "more than 3 line breaks per statement; lines starting with a statement-level word (excluded by the property)"]
 
 
 def obligations(tier):
     obs = lex_obs("C05", "c_case", CTX, tier, "case")
+    t = 300 if tier == "quick" else 1500
+    for ti, name in enumerate(["create_table", "alter_fk", "create_index", "create_sequence"]):
+        obs.append(Ob(f"C05.lines/{name}", "pre", "c_lines", {"VF_T": ti, "VF_NBREAK": 2 if tier == "quick" else 3}, t, FN_PRE,
+                      "line breaks at up to 2 [thorough 3] token gaps (symbolic positions), continuation indent 0/2/4 blanks, optional blank line; same statement as the one-line spelling",
+                      known="quote-at-line-start"))
     if tier == "thorough":
         obs += mask_obs("C05", ["option_pos", "after_columns", "seq_options", "alter_body", "col_later", "after_create"], tier)
     return obs
